@@ -18,11 +18,12 @@ def run(v, tier, replay):
     fedges = {(e["t"], e["l"], e["a"], e["n"]) for e in edges["frames"]}
     dedges = {(e["d"], e["c"]) for e in edges["decoders"]}
     sd = lib.scratch("vf-c11-")
-    jobs = [("frames", str(g)) for g in range(8)] + [("flood", ""), ("decoders", "")]
+    nseeds = 5 if thorough else 1        # the frames' random payloads and the decoders' random inputs depend on the seed
+    jobs = [("frames", str(g), k) for g in range(8) for k in range(nseeds)] + [("flood", "", k) for k in range(nseeds)] + [("decoders", "", k) for k in range(nseeds)]
     def child(j):
-        mode, g = j
-        out = os.path.join(sd, "%s%s.ndjson" % (mode, g))
-        args = [binp, mode, out, str(lib.seed())] + ([g] if g else [])
+        mode, g, k = j
+        out = os.path.join(sd, "%s%s-%d.ndjson" % (mode, g, k))
+        args = [binp, mode, out, str(lib.seed() + 7919 * k)] + ([g] if g else [])
         rc, so, se = lib.run(args, timeout=900)
         return j, rc, out, (so + se)[-4000:]
     # the client-side decoder of the execution status (unexported: add-only overlay test in package codex)
@@ -55,7 +56,7 @@ def run(v, tier, replay):
                     evs.append(dict(ev="crash", mode=j[0], reason="driver stuck / exited %s" % rc, last=last, stack=[]))
                 else:
                     evs.append(dict(ev="crash", mode=j[0], reason=reason[0][:300], last=last, stack=[l.strip() for l in tail.split("\n") if lib.REPO_MARK in l][:4]))
-            events += [dict(e, group="%s%s" % j) for e in evs if e["ev"] in ("probe", "stop", "decode", "crash")]
+            events += [dict(e, group="%s%s" % j[:2]) for e in evs if e["ev"] in ("probe", "stop", "decode", "crash")]
     v.cov["frame_edges_in_spec"] = len(fedges); v.cov["frame_edges_executed"] = len(fedges & fcov)
     v.cov["decoder_edges_in_spec"] = len(dedges); v.cov["decoder_edges_executed"] = len(dedges & dcov)
     v.cov["decoder_edges_not_executed"] = sorted(map(list, dedges - dcov))[:20]
